@@ -264,3 +264,30 @@ Proof. vm_compute. reflexivity. Qed.
 Lemma overflow_fixed : g_ovf (drun false true (dialer_init 1073741824 2147483647) overflow_run) = false /\
   d_curr (drun false true (dialer_init 1073741824 2147483647) overflow_run) = 2147483647.
 Proof. vm_compute. split; reflexivity. Qed.
+
+(* ------------------------------------------------------------------ the repaired form: every history *)
+Definition op_in_range (o : dop) : Prop :=
+  match o with DSetMin v | DSetMax v => 0 <= v <= INT32_MAX | _ => True end.
+
+Lemma in_range_cov : forall d o, BInv true d -> op_in_range o -> op_cov true true d o.
+Proof.
+  intros d o ((I & M & W) & _) R. destruct o; simpl in *; auto.
+  - unfold cfg_ok. repeat split; try lia; auto.
+  - split; [|left; reflexivity]. unfold cfg_ok. repeat split; try lia; auto.
+Qed.
+
+Theorem delay_bounded_repaired : forall inir maxr ops d,
+  0 <= inir <= INT32_MAX -> 0 <= maxr <= INT32_MAX -> Forall op_in_range ops ->
+  d = drun true true (dialer_init inir maxr) ops ->
+  g_ovf d = false /\ 0 <= d_curr d <= Z.max (d_inir d) (d_maxr d) /\
+  forall dl i m, In (dl, i, m) (g_delays d) -> 0 <= dl /\ (dl < Z.max i m \/ (dl = 0 /\ Z.max i m = 0)).
+Proof.
+  intros inir maxr ops d RI RM F ->.
+  assert (B : forall ops d0, BInv true d0 -> Forall op_in_range ops -> BInv true (drun true true d0 ops)).
+  { induction ops0 as [|o r IH]; intros d0 H C; simpl in *; auto. inversion C; subst. apply IH; auto.
+    apply dstep_BInv; auto. apply in_range_cov; auto. }
+  assert (B0 : BInv true (dialer_init inir maxr)).
+  { unfold BInv, dialer_init, cfg_ok; simpl. repeat split; auto; try lia. }
+  destruct (B ops _ B0 F) as (_ & CU & OV & DL). split; [exact OV|split; [exact CU|]].
+  intros dl i m H. rewrite Forall_forall in DL. specialize (DL _ H). simpl in DL. exact DL.
+Qed.
